@@ -1240,12 +1240,13 @@ Section GovProofs.
     step_ok E_eqb sem accts nodes a o rc b = 0 <->
     cl_final a b = true /\ cl_tally b = true /\ cl_ballots a b = true /\ cl_approved sem b = true /\
     cl_rejected sem a b = true /\ cl_special b = true /\ cl_refusal E_eqb accts nodes a o rc b = true /\
-    cl_object accts nodes a b = true /\ cl_header E_eqb a b = true /\ cl_avail a b = true /\ cl_bound a b = true.
+    cl_object accts nodes a b = true /\ cl_header E_eqb a b = true /\ cl_avail a b = true /\ cl_bound a b = true /\
+    cl_index b = true /\ cl_record a b = true.
   Proof.
     unfold step_ok.
     destruct (cl_final a b), (cl_tally b), (cl_ballots a b), (cl_approved sem b), (cl_rejected sem a b),
              (cl_special b), (cl_refusal E_eqb accts nodes a o rc b), (cl_object accts nodes a b),
-             (cl_header E_eqb a b), (cl_avail a b), (cl_bound a b); simpl; split; intro H; try discriminate; try tauto;
+             (cl_header E_eqb a b), (cl_avail a b), (cl_bound a b), (cl_index b), (cl_record a b); simpl; split; intro H; try discriminate; try tauto;
       repeat match goal with H : _ /\ _ |- _ => destruct H end; try discriminate.
   Qed.
 
@@ -1255,7 +1256,7 @@ Section GovProofs.
     | (o, rc, b) :: t => step_ok E_eqb sem accts nodes a o rc b = 0 /\ trace_P accts nodes b t
     end.
 
-  Lemma step_ok_small accts nodes (a : state) o rc (b : state) : step_ok E_eqb sem accts nodes a o rc b <= 11.
+  Lemma step_ok_small accts nodes (a : state) o rc (b : state) : step_ok E_eqb sem accts nodes a o rc b <= 13.
   Proof.
     unfold step_ok.
     repeat match goal with |- context[if ?c then _ else _] => destruct c end; lia.
@@ -1307,7 +1308,9 @@ Section GovProofs.
                       | _, _ => false end) [0; 1; 2] = true) as H4.
     { apply forallb_forall. intros m _. destruct (strat_of a m) as [[[z e] s]|]; [|reflexivity].
       unfold seqb. rewrite E_eqb_refl, String.eqb_refl. destruct z; reflexivity. }
-    rewrite Nat.eqb_refl, H1, H2, H3, H4. reflexivity.
+    assert (forall l : list nat, list_eqb Nat.eqb l l = true) as H5.
+    { intro l. apply list_eqb_spec; [intros x y; apply Nat.eqb_eq | reflexivity]. }
+    rewrite Nat.eqb_refl, !H5, H1, H2, H3, H4. reflexivity.
   Qed.
 
   Theorem core_clauses_hold accts nodes (st : state) o :
